@@ -6,6 +6,7 @@ import pyspec
 
 ID = "C08"
 TARGETS = ["Properties/C08.vo"]
+COQCHK_NOREC = True     # coqchk of the full closure (Interval, Reals) takes > 45 min without vm: only the property file is re-checked
 FIELDS = ["key", "lat", "lon", "dist", "pt", "cl0", "cl1", "co0", "co1", "cs"]
 EXPLANATION = ("theorems: the position changes only under the pairing guard (both slots filled, same kind, < 10 whole seconds apart, equal NL, "
                "range) and is then the CPR decode anchored on the newer frame with the distance tag of the configured observer; the NL table "
